@@ -91,7 +91,8 @@ func c16Units(e *env) {
 		}
 	}
 	for _, in := range c16Inputs(e) {
-		if utf8.ValidString(in.S) && in.Class != "byte" {
+		// (single units are covered exhaustively below; the unicode.IsPrint boundaries concern the Go escaper only)
+		if utf8.ValidString(in.S) && in.Class != "byte" && in.Class != "isprint-boundary" {
 			add(utf16.Encode([]rune(in.S)))
 		}
 	}
